@@ -1,6 +1,7 @@
 import MW.Inv.GReach
 import MW.Chain.World
 import MW.Inv.WorldInv
+import MW.Inv.Demo
 /-!
 # C03 — LST supply integrity and exact delivery of minted tokens
 -/
@@ -144,45 +145,10 @@ error acknowledgement of the LST packet → permissionless recovery → unstake 
 re-sent packet → donation.  The conditions `AllOK` hold (so `C03_custody` applies) and the state is
 non-trivial: supply 3000, pending batch 500, refundable 1000, donated 7, contract balance 1507. -/
 section Demo
-def demoSelf : String := "osmo1ejpjr43ht3y56pplm5pxpusmcrk9rkkvna4tklusnnwdxpqm0zlsjhwfeq"
-def demoAdmin : String := "osmo1335hded4gyzpt00fpz75mms4m7ck02wgj3xjgx"
-def demoUser : String := "osmo187fpqa68lnxvtrdc8qfzc9q5nvwxuk5p4k9l2m"
-def demoNativeUser : String := "celestia1ejn6ljfpemz9huuur4gm8evqfuu6usrgpfltla"
-def demoD : String := "ibc/C3E53D20BC7A4CC993B17C7971F8ECD06A433C10B6A96F4C4C3714F0624C56DA"
-def demoX : String := "factory/" ++ demoSelf ++ "/stTIA"
-
-def demoMsg : InstantiateMsg :=
-  { native := { accountPrefix := "celestia", validatorPrefix := "celestiavaloper", tokenDenom := "utia",
-                validators := ["celestiavaloper173ehxg25xha8j7w7hcjx0gk2wau7njcacmukjv"], unbondingPeriod := 1814400,
-                staker := "celestia1639jjhzpm4pu7pqa3pccxgp40lf5d6xvmaflzd",
-                rewardCollector := "celestia1qum06kmuc74hml5zr5ap07flyc6yjamsdk2m5n" },
-    proto := { accountPrefix := "osmo", ibcDenom := demoD, channel := "channel-7", minStake := 100, oracle := none },
-    feeCfg := { fee := 10000, treasury := none }, lstSubdenom := "stTIA", batchPeriod := 86400, monitors := [] }
-
-def demoEnv : Env :=
-  { timeNs := 1700000000000000000, height := 10, txIndex := some 0, contract := demoSelf, chainPrefix := "osmo" }
-
-def demoBoot : Option World :=
-  match instantiate demoEnv { sender := demoAdmin, funds := [] } demoMsg with
-  | .ok (c, _) => some (bootWorld c demoSelf "osmo" 1700000000000000000 10)
-  | .error _ => none
-
-def demoEvents : List Event :=
-  [ .exec demoAdmin [] (.resumeContract 0 0 0) {} (some 0),
-    .faucet demoUser ⟨demoD, 5000⟩,
-    .exec demoUser [⟨demoD, 2000⟩] (.liquidStake none none none) {} (some 0),
-    .exec demoUser [⟨demoD, 1000⟩] (.liquidStake (some demoNativeUser) none none) {} (some 1),
-    .ack 3 false,
-    .exec demoUser [] (.recover none none (some demoNativeUser)) {} (some 0),
-    .exec demoUser [⟨demoX, 500⟩] .liquidUnstake {} (some 0),
-    .timeout 4,
-    .donate demoUser ⟨demoX, 7⟩ ]
-
-#guard (demoBoot.map fun w => allOKb w demoEvents) == some true
-#guard (demoBoot.map fun w =>
-    let r := runW w {} demoEvents
-    (r.1.bal demoSelf demoX, r.1.supply demoX, r.1.c.st.totalLst, pendTotal r.1.c, refundableSum r.1.c demoX, r.2.donL,
-     r.1.pkts.length)) == some (1507, 3000, 3000, 500, 1000, 7, 4)
+open MW.Chain.Demo
+#guard (demoBoot.map fun w => allOKb w demoEvents1) == some true
+#guard (demoBoot.map fun w => let r := runW w {} demoEvents1; (summary r.1 r.2).take 7)
+  == some [1507, 3000, 3000, 500, 1000, 7, 4]
 end Demo
 
 /-- regression witness for the defect fixed in /repo (ce795a0): at totals 2000/1000 a stake of 1001
